@@ -5,11 +5,16 @@ component streams (real functions called in-process, compared with the Lean mode
   pfc  : PageTemplate.processFileContent (image-placeholder pass + escape-high-chars loop), flag on/off
   h5   : HTML5.processFileContent (base pass + the two clean-up regexes), flag on/off
   xh   : XHTML.processFileContent (base pass + the three clean-up regexes), flag on/off
-  tree : Renderable.__str__ on hand-built node trees (text nodes, .str short-cuts, elements with wrapping templates)
+  tree : Renderable.__str__ on hand-built node trees (text nodes, .str short-cuts, elements with wrapping templates);
+         leaves repeat within a tree, as text and as declared markup (isMarkup), in either order
+  hist : sequences of textDefault calls on ONE renderer object (plain and isMarkup strings, repeated strings):
+         the hook must have no memory.  Every case of every stream gets a new renderer object, so a case is replayable.
   dec  : ties the Spec reader `decode` to html.parser on the fragment where both are defined alike
 document level (extra_checks, oracle doc12): generated documents with adversarial text in every text-bearing position
-  x {HTML5, XHTML} x theme x split-level x escape-high-chars x output encoding, parsed with html.parser and
-  compared with the same document carrying inert letters.
+  x {HTML5, XHTML} x theme x split-level x escape-high-chars x output encoding x the options of Config.py /
+  HTML5/Config.py that templates consult (breadcrumbs-level, localtoc-level, display-toc, toc-depth, toc-non-files,
+  sec-num-depth, mathjax, theme css/js), parsed with html.parser and compared with the same document carrying inert
+  letters.  Documents may contain declared raw HTML (package html) and text leaves that are exactly the same string.
 """
 import os, re, sys, json, html, logging, random, tempfile, shutil, types
 from html.parser import HTMLParser
@@ -25,7 +30,9 @@ LEVEL_TEXT = ('Lean 4 theorems over a line-by-line model of PageTemplate.textDef
               'every & starts a reference, and an HTML reader decodes it back to exactly the input (also when followed by arbitrary template '
               'output); numeric escaping yields 7-bit output and commutes with decoding for every file content; on every well-tagged file content '
               'the clean-up regexes lose, change or reorder no non-blank character of the character data (only &nbsp; is added in empty cells) and never '
-              'touch escaped text; every node tree rendered through tag-only templates displays exactly its text leaves. '
+              'touch escaped text; the hook is memoryless (hook_history_independent) and the child loop carries nothing from one child to the next; '
+              'every node tree rendered through tag-only templates displays exactly its text leaves, also next to complete declared markup '
+              '(render_with_markup_leaves). '
               'PARTIAL: Jinja2/simpleTAL expansion of the ~110 template files is not modelled; that each template emits node text only through '
               'the escaping hook (and escapes text it copies into attributes) is carried by the document-level oracle doc12 (sampled), not by a theorem.')
 LEVEL_NOTE = ('Trusted: Lean kernel (axioms propext, Classical.choice, Quot.sound only), the translator (AST of textDefault + probes of textDefault, '
@@ -41,7 +48,8 @@ ASSUMPTIONS = ['no generated images are registered with the imagers (no LaTeX in
 RULE = ('component strings are drawn from an adversarial alphabet (markup metacharacters, entity-/tag-like fragments, placeholders, white space, '
         'non-ASCII incl. astral and lone surrogates) plus ~15% uniformly random code points; non-trivial = the input contains a character the '
         'mechanism must act on (& < > or a code point > 127 or a regex trigger) and the expected result is not an error; '
-        'distinct = distinct driver request line; document level: distinct (structure, configuration, payload) renders')
+        'histories/trees draw their strings from a small per-case pool so that equal strings recur with and without isMarkup; '
+        'distinct = distinct driver request line; document level: distinct (structure, configuration incl. template options, payload) renders')
 EXHAUSTIVE = {}
 CASE_TIMEOUT = 30
 
@@ -298,17 +306,38 @@ def gen_htmlish(rng, depth=2):
     return ''.join(out)
 
 
-def gen_tree(rng, depth, top=False):
-    """prefix words of a render tree: T m n c.. | U m n c.. | E tpl k children"""
+# complete pieces of declared markup (what the packages html/embed hand to the renderer as isMarkup strings)
+WELL_MARKUP = ['<hr>', '<br>', '<b>x</b>', '<i>', '</i>', '<span class="k">y</span>', '&amp;', '&copy;', '<hr/>', '<u>a</u>', 'x', '']
+
+
+def gen_tree(rng, depth, top=False, pool=None):
+    """prefix words of a render tree: T m n c.. | U m n c.. | E tpl k children.
+    Leaves are drawn half of the time from a small per-tree pool, so that the same string occurs several times in
+    one rendering, as text and as declared markup, in either order."""
+    if pool is None:
+        pool = [rng.choice(WELL_MARKUP) for _ in range(rng.randint(1, 2))] + [rand_string(rng, FRAGS, 3)]
     r = rng.random()
     if (depth <= 0 or r < 0.35) and not top:
-        s = rand_string(rng, FRAGS, 4)
-        m = 1 if rng.random() < 0.06 else 0
+        s = rng.choice(pool) if rng.random() < 0.5 else rand_string(rng, FRAGS, 4)
+        if s in WELL_MARKUP:
+            m = 1 if rng.random() < 0.4 else 0
+        else:
+            m = 1 if rng.random() < 0.04 else 0
         return ['T' if rng.random() < 0.7 else 'U', str(m), str(len(s))] + [str(ord(c)) for c in s]
     k = rng.randint(0, 4)
     out = ['E', str(rng.randrange(5)), str(k)]
     for _ in range(k):
-        out += gen_tree(rng, depth - 1)
+        out += gen_tree(rng, depth - 1, pool=pool)
+    return out
+
+
+def gen_hist(rng):
+    """a sequence of hook calls on one renderer: `m n c..` repeated; strings repeat with both flags"""
+    pool = [rng.choice(WELL_MARKUP + FRAGS) for _ in range(rng.randint(1, 3))] + [rand_string(rng, FRAGS, 3)]
+    out = []
+    for _ in range(rng.randint(2, 8)):
+        s = rng.choice(pool)
+        out += [str(1 if rng.random() < 0.35 else 0), str(len(s))] + [str(ord(c)) for c in s]
     return out
 
 
@@ -331,6 +360,8 @@ def generate(ctx):
     for _ in range(n // 3):
         yield Case('tree', ' '.join(gen_tree(rng, rng.randint(1, 4), top=True)))
     for _ in range(n // 3):
+        yield Case('hist', ' '.join(gen_hist(rng)))
+    for _ in range(n // 3):
         s = ''.join(rng.choice(DEC_FRAGS) for _ in range(rng.randint(0, 8)))
         yield Case('dec', cps(s))
 
@@ -350,6 +381,9 @@ def corpus():
         Case('xh', '0 ' + cps('<br><hr/><img src="a" / ><colgroup><col><BR  /  >'), None, 'corpus'),
         Case('xh', '0 ' + cps('<l\u0131nk a><lin\u212a><meta / /><br'), None, 'corpus'),
         Case('tree', 'E 0 3 T 0 2 60 97 E 1 1 U 0 1 38 T 0 3 38 108 116', None, 'corpus'),
+        Case('tree', 'E 0 3 U 1 4 60 104 114 62 E 3 1 T 0 4 60 104 114 62 T 1 4 60 104 114 62', None, 'corpus'),   # raw <hr>, text <hr>, raw <hr>
+        Case('hist', '1 4 60 104 114 62 0 4 60 104 114 62 0 1 38 1 1 38 0 1 38', None, 'corpus'),
+        Case('hist', '0 4 60 98 114 62 1 4 60 98 114 62 0 4 60 98 114 62', None, 'corpus'),
         Case('dec', cps('&amp;lt; &#60;&#0062; & &; &#; &quot;'), None, 'corpus'),
     ]
     d = os.path.join(os.path.dirname(os.path.dirname(os.path.dirname(os.path.abspath(__file__)))), 'corpus', ID)
@@ -368,6 +402,8 @@ def nontrivial(o):
     body = o.case.line.split()
     if o.case.stream == 'tree':
         return any(w in ('38', '60', '62') for w in body) and 'E' in body[1:]
+    if o.case.stream == 'hist':
+        return any(w in ('38', '60', '62') for w in body)
     ws = body[1:] if o.case.stream != 'dec' else body
     if o.case.stream in ('h5', 'xh'):
         return o.impl != ' '.join(ws) or '60' in ws
@@ -380,17 +416,17 @@ _env = {}
 
 
 def _renderer(kind='PageTemplate'):
-    if kind not in _env:
-        if kind == 'PageTemplate':
-            from plasTeX.Renderers.PageTemplate import Renderer
-        elif kind == 'HTML5':
-            from plasTeX.Renderers.HTML5 import Renderer
-        else:
-            from plasTeX.Renderers.XHTML import Renderer
-        r = Renderer()
-        r.imager = r.vectorImager = types.SimpleNamespace(images={}, staticimages={})
-        _env[kind] = r
-    return _env[kind]
+    """a NEW renderer object for every case: a case must fail or pass on its own (replayable); whatever a
+    renderer remembers between calls is exercised inside one case by the `hist` and `tree` streams"""
+    if kind == 'PageTemplate':
+        from plasTeX.Renderers.PageTemplate import Renderer
+    elif kind == 'HTML5':
+        from plasTeX.Renderers.HTML5 import Renderer
+    else:
+        from plasTeX.Renderers.XHTML import Renderer
+    r = Renderer()
+    r.imager = r.vectorImager = types.SimpleNamespace(images={}, staticimages={})
+    return r
 
 
 def _fake_doc(esc):
@@ -411,17 +447,18 @@ def _tree_env():
         classes = {k: type('tpl%d' % k, (Command,), {}) for k in TPL}
         uni = type('unichar', (Command,), {})
         doc = TeXDocument()
-        from plasTeX.Renderers.PageTemplate import Renderer
-        r = Renderer()
-        r.level = -10
-        for k, (pre, post) in TPL.items():
-            r['tpl%d' % k] = (lambda pre, post: (lambda node: pre + str(node) + post))(pre, post)
-        _env['tree'] = (doc, r, classes, uni)
-    return _env['tree']
+        _env['tree'] = (doc, classes, uni)
+    doc, classes, uni = _env['tree']
+    from plasTeX.Renderers.PageTemplate import Renderer
+    r = Renderer()              # a new renderer per tree (see _renderer)
+    r.level = -10
+    for k, (pre, post) in TPL.items():
+        r['tpl%d' % k] = (lambda pre, post: (lambda node: pre + str(node) + post))(pre, post)
+    return doc, r, classes, uni
 
 
-def _build(words, i):
-    doc, r, classes, uni = _tree_env()
+def _build(words, i, env=None):
+    doc, r, classes, uni = env or _tree_env()
     w = words[i]
     if w in ('T', 'U'):
         m, n = int(words[i + 1]), int(words[i + 2])
@@ -440,13 +477,71 @@ def _build(words, i):
     e.ownerDocument = doc
     j = i + 3
     for _ in range(k):
-        c, j = _build(words, j)
+        c, j = _build(words, j, (doc, r, classes, uni))
         e.append(c)
     return e, j
 
 
+def parse_calls(words):
+    calls, i = [], 0
+    while i < len(words):
+        m, n = int(words[i]), int(words[i + 1])
+        calls.append((m, ''.join(chr(int(x)) for x in words[i + 2:i + 2 + n])))
+        i += 2 + n
+    return calls
+
+
+def parse_tree(words, i=0):
+    """('T'|'U', flag, string) | ('E', tpl, [children])"""
+    w = words[i]
+    if w in ('T', 'U'):
+        m, n = int(words[i + 1]), int(words[i + 2])
+        return (w, m, ''.join(chr(int(x)) for x in words[i + 3:i + 3 + n])), i + 3 + n
+    tpl, k = int(words[i + 1]), int(words[i + 2])
+    j, cs = i + 3, []
+    for _ in range(k):
+        c, j = parse_tree(words, j)
+        cs.append(c)
+    return ('E', tpl, cs), j
+
+
+def tree_reference(tree):
+    """the rendering the property prescribes, written with place holders: declared markup as it is, the wrapping
+    templates of the stream, and one private-use marker per text leaf; returns (string, [leaf texts])"""
+    texts = []
+
+    def go(t, top):
+        if t[0] in ('T', 'U'):
+            if t[1]:
+                return t[2]
+            texts.append(t[2])
+            return '\ue000%d\ue001' % (len(texts) - 1)
+        inner = ''.join(go(c, False) for c in t[2])
+        if top:
+            return inner
+        pre, post = TPL[t[1] if t[1] in TPL else 4]
+        return pre + inner + post
+    return go(tree, True), texts
+
+
 def impl(case, aux):
     st = case.stream
+    if st == 'hist':
+        from plasTeX.DOM import Text
+        r = _renderer()
+        outs = []
+        try:
+            for m, t in parse_calls(case.line.split()):
+                node = Text(t)
+                if m:
+                    node.isMarkup = True
+                out = r.textDefault(node)
+                if not isinstance(out, str):
+                    return 'err:type:' + type(out).__name__
+                outs.append(cps(out))
+        except Exception as e:
+            return canon_exc(e)
+        return ' | '.join(outs)
     if st == 'dec':
         s = from_cps(case.line)
         ev = html_events(s)
@@ -456,8 +551,9 @@ def impl(case, aux):
     if st == 'tree':
         from plasTeX.DOM import Node
         from plasTeX.Renderers import Renderable, mixin, unmix
-        doc, r, classes, uni = _tree_env()
-        node, _ = _build(case.line.split(), 0)
+        env = _tree_env()
+        doc, r, classes, uni = env
+        node, _ = _build(case.line.split(), 0, env)
         mixin(Node, Renderable)
         Node.renderer = r
         try:
@@ -527,6 +623,20 @@ def judge(o):
         o.prop_ok = False
         o.note = 'the real function raised / returned a non-string'
         return
+    if st == 'hist':
+        calls = parse_calls(o.case.line.split())
+        outs = [from_cps(x) for x in o.impl.split('|')]
+        if len(outs) != len(calls):
+            o.prop_ok = False
+            return
+        ok = True
+        for (m, t), out in zip(calls, outs):
+            if m:
+                continue      # declared markup: outside the property (compared with the model)
+            ev = html_events(out)
+            ok = ok and '<' not in out and '>' not in out and all(e[0] == 'text' for e in ev) and ''.join(e[1] for e in ev) == t
+        o.prop_ok = ok
+        return
     try:
         out = from_cps(o.impl)
     except ValueError:
@@ -545,10 +655,39 @@ def judge(o):
         o.prop_ok = ('<' not in out and '>' not in out and all(e[0] == 'text' for e in ev)
                      and ''.join(e[1] for e in ev) == s and o.spec == rest.strip())
         return
-    if st == 'tree':
-        if o.spec == '-':
+    if st == 'tree' and o.spec == '-':
+        # the tree contains declared markup: compare the parse of the output with the parse of the prescribed
+        # rendering (markup as it is, every text leaf as a text node holding exactly its characters)
+        tree, _ = parse_tree(o.case.line.split())
+        flagged = []
+
+        def collect(t):
+            if t[0] == 'E':
+                for c in t[2]:
+                    collect(c)
+            elif t[1]:
+                flagged.append(t[2])
+        collect(tree)
+        if not all(f in WELL_MARKUP for f in flagged):
             o.prop_ok = True
+            o.note = 'declared markup that is not a complete piece of HTML: compared with the model only'
             return
+        ref, texts = tree_reference(tree)
+        want = []
+        for e in html_events(ref):
+            if e[0] == 'text':
+                want.append(('text', re.sub('\ue000(\\d+)\ue001', lambda m: texts[int(m.group(1))], e[1])))
+            else:
+                want.append(e)
+        merged = []
+        for e in want:
+            if e[0] == 'text' and merged and merged[-1][0] == 'text':
+                merged[-1] = ('text', merged[-1][1] + e[1])
+            elif e != ('text', ''):
+                merged.append(e)
+        o.prop_ok = (merged == [e for e in html_events(out) if e != ('text', '')])
+        return
+    if st == 'tree':
         ev = html_events(out)
         want = from_cps(o.spec)
         o.prop_ok = (''.join(e[1] for e in ev if e[0] == 'text') == want and not any(e[0] in ('comment', 'decl', 'pi', 'unknown-decl') for e in ev))
@@ -573,7 +712,18 @@ def judge(o):
 
 
 def shrink(ctx, o, evaluate):
-    """delete code points one at a time while the property still fails"""
+    """delete code points (calls of a history) one at a time while the property still fails"""
+    if o.case.stream == 'hist':
+        best = o
+        for _ in range(20):
+            calls = parse_calls(best.case.line.split())
+            cands = [Case('hist', ' '.join('%d %d %s' % (m, len(t), cps(t)) for m, t in calls[:i] + calls[i + 1:]).replace('  ', ' ').strip(), None, 'shrink')
+                     for i in range(len(calls)) if len(calls) > 1]
+            nxt = next((r for r in evaluate(cands) if not r.prop_ok), None) if cands else None
+            if nxt is None:
+                break
+            best = nxt
+        return best
     if o.case.stream not in ('esc', 'pfc', 'h5', 'xh', 'dec'):
         return o
     best = o
@@ -617,6 +767,7 @@ def search(ctx, evaluate, corr_bad):
         cases.append(Case(rng.choice(['h5', 'xh']), '%d %s' % (rng.randrange(2), cps(gen_htmlish(rng))), None, 'search'))
     for _ in range(1500):
         cases.append(Case('tree', ' '.join(gen_tree(rng, rng.randint(1, 4), top=True)), None, 'search'))
+        cases.append(Case('hist', ' '.join(gen_hist(rng)), None, 'search'))
     bad = [o for o in evaluate(cases) if not o.prop_ok]
     if bad:
         o = shrink(ctx, bad[0], evaluate)
@@ -698,6 +849,12 @@ def _gen_payload(rng, verbatim, latin1):
     return x, t
 
 
+# declared raw markup (package html: rawhtml environment) that documents may contain next to their text
+RAWPOOL = ['<hr>', '<br>', '<b>x</b>', '<span class="k">y</span>', '<em>z</em>', '&copy;', '<u>', '</u>', '<hr class="r">']
+BARE_POSITIONS = ('emph', 'textbf', 'title', 'caption', 'footnote', 'quote', 'doctitle', 'term', 'item', 'cell')
+BARE_WHOLE = [w for w in WHOLE if "'" not in w and '--' not in w and w == w.strip()] + ['<', '>', '&', '"', '&amp;', '&lt;']
+
+
 def marker(k):
     return 'Q' + 'abcdefghijklmnopqrstuvwxyz'[k // 26] + 'abcdefghijklmnopqrstuvwxyz'[k % 26] + 'Q'
 
@@ -708,6 +865,8 @@ class DocSpec:
 
     def __init__(self, rng):
         self.parts = []      # strings and ('leaf', k)
+        self.raws = []       # raw-HTML strings the document contains (declared markup, same in baseline and adversarial)
+        self.use_raw = rng.random() < 0.35
         self.leaves = []     # (position name, verbatim?)
         self.rng = rng
         self.build()
@@ -735,8 +894,15 @@ class DocSpec:
             else:
                 self.add('\\verb|'); self.leaf('verb', True); self.add('| ')
 
+    def raw(self):
+        w = self.rng.choice(RAWPOOL)
+        self.raws.append(w)
+        self.add('\n\\begin{rawhtml}%s\\end{rawhtml}\n' % w)
+
     def block(self):
         rng = self.rng
+        if self.use_raw and rng.random() < 0.4:
+            self.raw()
         r = rng.randrange(10)
         if r == 0:
             self.add('\n\n'); self.inline(); self.add('\n\n')
@@ -776,6 +942,8 @@ class DocSpec:
         rng = self.rng
         self.cls = rng.choice(['article', 'article', 'book', 'report'])
         self.add('\\documentclass{%s}\n' % self.cls)
+        if self.use_raw:
+            self.add('\\usepackage{html}\n')
         if rng.random() < 0.8:
             self.add('\\title{'); self.leaf('doctitle'); self.add('}')
             if rng.random() < 0.5:
@@ -809,7 +977,10 @@ class DocSpec:
             if isinstance(p, tuple):
                 k = p[1]
                 pl = payloads.get(k) if payloads else None
-                out.append(marker(k) + (pl[0] if pl else '') + 'Z')
+                if pl and len(pl) > 2 and pl[2]:
+                    out.append(pl[0])          # bare leaf: the payload is the whole text node
+                else:
+                    out.append(marker(k) + (pl[0] if pl else '') + 'Z')
             else:
                 out.append(p)
         return ''.join(out)
@@ -832,6 +1003,8 @@ def render_doc(src, cfg):
         config['general']['theme'] = cfg['theme']
     config['images']['imager'] = 'none'
     config['images']['vector-imager'] = 'none'
+    for sec, key, val in cfg.get('opts') or []:
+        config[sec][key] = val
     doc = TeXDocument(config=config)
     tex = TeX(doc)
     tex.input(src)
@@ -863,8 +1036,8 @@ def render_doc(src, cfg):
 
 
 def _subst(s, table):
-    for k, txt in table.items():
-        s = s.replace(marker(k) + 'Z', marker(k) + txt + 'Z')
+    for k, full in table.items():
+        s = s.replace(marker(k) + 'Z', full)
     # whether TeX's apostrophe ligature (' -> U+2019) applies at a place is not this property's business
     return s.replace('\u2019', "'")
 
@@ -903,8 +1076,9 @@ class _Renum:
 
 
 def doc12_check(base_src, adv_src, texts, cfg):
-    """None when the property holds, else a description.  texts: {leaf k: displayed text}"""
-    texts = {int(k): v for k, v in texts.items()}
+    """None when the property holds, else a description.  texts: {leaf k: displayed text, or {'bare': text} when the
+    payload stands alone (no marker around it) in the adversarial document}"""
+    texts = {int(k): (v['bare'] if isinstance(v, dict) else marker(int(k)) + v + 'Z') for k, v in texts.items()}
     cfg_off = dict(cfg, esc=0)
     try:
         base = render_doc(base_src, cfg_off)
@@ -949,15 +1123,52 @@ def gen_cfg(rng):
     enc = rng.choice(['utf-8', 'utf-8', 'latin-1', 'utf-16'])
     if renderer == 'HTML5' and theme is None and enc == 'latin-1':
         enc = 'utf-8'     # the default HTML5 layout itself contains U+25B6/U+25BC: not writable in Latin-1
-    return {'renderer': renderer, 'theme': theme, 'split': rng.choice([-10, 0, 1, 2, 2, 3]), 'esc': 0, 'enc': enc}
+    return {'renderer': renderer, 'theme': theme, 'split': rng.choice([-10, 0, 1, 2, 2, 3]), 'esc': 0, 'enc': enc,
+            'opts': gen_opts(rng)}
+
+
+# Options of Config.py / HTML5/Config.py that the templates consult: each can make further text-bearing
+# positions appear (breadcrumbs, local tables of contents, deeper or non-file toc entries, numbered titles).
+# Every option takes its default half of the time.
+OPTION_SPACE = [
+    ('html5', 'breadcrumbs-level', [-100, 0, 0, 1, 2, 3]),
+    ('html5', 'localtoc-level', [-100, 0, 1, 2, 10]),
+    ('html5', 'display-toc', [False]),
+    ('html5', 'use-mathjax', [False]),
+    ('html5', 'mathjax-dollars', [True]),
+    ('html5', 'use-theme-css', [False]),
+    ('html5', 'use-theme-js', [False]),
+    ('document', 'toc-depth', [0, 1, 2, 6]),
+    ('document', 'toc-non-files', [True]),
+    ('document', 'sec-num-depth', [0, 1, 6]),
+    ('general', 'copy-theme-extras', [False]),
+]
+
+
+ALL_ON = [['html5', 'breadcrumbs-level', -100], ['html5', 'localtoc-level', 10], ['document', 'toc-depth', 6],
+          ['document', 'toc-non-files', True], ['document', 'sec-num-depth', 6]]
+
+
+def gen_opts(rng):
+    if rng.random() < 0.2:
+        return [list(o) for o in ALL_ON]      # every optional text-bearing position switched on
+    opts = []
+    for sec, key, vals in OPTION_SPACE:
+        if rng.random() < 0.5:
+            opts.append([sec, key, rng.choice(vals)])
+    return opts
 
 
 def replay_extra(ctx, extra):
     return doc12_check(extra['baseline_tex'], extra['tex'], extra['texts'], extra['config']) is not None
 
 
+def _texts(payloads):
+    return {k: ({'bare': v[1]} if len(v) > 2 and v[2] else v[1]) for k, v in payloads.items()}
+
+
 def _doc_violation(spec, payloads, cfg, what):
-    texts = {str(k): v[1] for k, v in payloads.items()}
+    texts = {str(k): v for k, v in _texts(payloads).items()}
     extra = {'oracle': 'doc12', 'baseline_tex': spec.source(None), 'tex': spec.source(payloads), 'texts': texts, 'config': cfg,
              'positions': {str(k): spec.leaves[k][0] for k in payloads}}
     return Violation('rendered HTML differs from the same document with inert text (html.parser): ' + what,
@@ -975,12 +1186,13 @@ def _shrink_doc(spec, payloads, cfg, what, budget=24):
             break
         one = {k: payloads[k]}
         budget -= 1
-        w = doc12_check(base_src, spec.source(one), {k: payloads[k][1]}, dict(cfg, tolerate_base_error=True))
+        w = doc12_check(base_src, spec.source(one), _texts(one), dict(cfg, tolerate_base_error=True))
         if w:
             best, best_what = one, w
             break
     if len(best) == 1:
-        (k, (tex, txt)), = best.items()
+        (k, pl), = best.items()
+        tex, txt, bare = pl[0], pl[1], (len(pl) > 2 and pl[2])
         verbatim = spec.leaves[k][1]
         # try the whole-string fragments of the payload on their own
         for w0 in WHOLE + [a[2] for a in ATOMS]:
@@ -988,9 +1200,9 @@ def _shrink_doc(spec, payloads, cfg, what, budget=24):
                 break
             if w0 in txt.replace('\u2019', "'") and len(w0) < len(txt):
                 cand_txt = w0 if verbatim else w0.replace("'", '\u2019')
-                cand = {k: (_spell(w0, verbatim), cand_txt)}
+                cand = {k: (_spell(w0, verbatim), cand_txt, bare)}
                 budget -= 1
-                w = doc12_check(base_src, spec.source(cand), {k: cand_txt}, dict(cfg, tolerate_base_error=True))
+                w = doc12_check(base_src, spec.source(cand), _texts(cand), dict(cfg, tolerate_base_error=True))
                 if w:
                     best, best_what = cand, w
                     break
@@ -1035,11 +1247,28 @@ def extra_checks(ctx):
     spec0 = DocSpec(random.Random(1))
     spec0.parts = ['\\documentclass{article}\\title{', ('leaf', 0), '}\\begin{document}\\maketitle\\section{', ('leaf', 1), '}text ', ('leaf', 2),
                    '\\section{', ('leaf', 3), '}more\\end{document}']
+    spec0.raws = []
     spec0.leaves = [('doctitle', False), ('title', False), ('text', False), ('title', False)]
     pl0 = {0: ('"q" <b> \\&amp;', '"q" <b> &amp;'), 1: ('One" onmouseover="evil', 'One" onmouseover="evil'),
            2: ('\\&lt-width;\\&px; \\&\\#60;b-depth;', '&lt-width;&px; &#60;b-depth;'), 3: ("<i>x</i> \\&lt; 'a", '<i>x</i> &lt; \u2019a')}
     todo = [(spec0, pl0, {'renderer': 'HTML5', 'theme': None, 'split': 2, 'esc': 0, 'enc': 'utf-8'}),
             (spec0, pl0, {'renderer': 'XHTML', 'theme': None, 'split': 2, 'esc': 0, 'enc': 'utf-8'})]
+    # a nested document with every optional text-bearing position switched on (breadcrumbs on every page,
+    # local tables of contents, deep and non-file toc entries)
+    spec1 = DocSpec(random.Random(2))
+    spec1.parts = ['\\documentclass{article}\\title{', ('leaf', 0), '}\\begin{document}\\maketitle\\section{', ('leaf', 1), '}text ', ('leaf', 2),
+                   '\\subsection{', ('leaf', 3), '}more\\subsubsection{', ('leaf', 4), '}deep ', ('leaf', 5), '\\paragraph{', ('leaf', 6),
+                   '} x\\section{', ('leaf', 7), '}end\\end{document}']
+    spec1.raws = []
+    spec1.leaves = [('doctitle', False), ('title', False), ('text', False), ('title', False), ('title', False), ('text', False), ('title', False),
+                    ('title', False)]
+    pl1 = {0: ('Notes on <u> \\& <script>alert(1)</script>', 'Notes on <u> & <script>alert(1)</script>'), 1: ('The <b> tag \\&lt;', 'The <b> tag &lt;'),
+           3: ('</a></li><i>', '</a></li><i>'), 4: ('\\&amp; "q" <!-{}- x', '&amp; "q" <!-- x'), 6: ('<img src=x onerror=y>', '<img src=x onerror=y>'),
+           7: ('\\&\\#60;b\\&\\#62;', '&#60;b&#62;')}
+    all_on = [list(o) for o in ALL_ON]
+    for renderer in ('HTML5', 'XHTML'):
+        for split in (3, 1):
+            todo.append((spec1, pl1, {'renderer': renderer, 'theme': None, 'split': split, 'esc': 0, 'enc': 'utf-8', 'opts': all_on}))
     for _ in range(ndocs):
         spec = DocSpec(rng)
         cfg = gen_cfg(rng)
@@ -1048,8 +1277,14 @@ def extra_checks(ctx):
         for k, (pos, verb) in enumerate(spec.leaves):
             if rng.random() < 0.75:
                 payloads[k] = gen_payload(rng, verb, latin1, pos in ('term', 'toctitle'))
+                if pos in BARE_POSITIONS and not verb and rng.random() < (0.5 if spec.raws else 0.15):
+                    # the payload alone is the whole text node; preferably a string that the document also
+                    # contains as declared raw HTML (same characters, once markup and once text)
+                    w0 = rng.choice(spec.raws) if spec.raws and rng.random() < 0.7 else rng.choice(BARE_WHOLE)
+                    if not (pos in ('term', 'toctitle') and ('[' in w0 or ']' in w0)):
+                        payloads[k] = (_spell(w0, False), w0, True)
         todo.append((spec, payloads, cfg))
-    items = [(i, spec.source(None), spec.source(payloads), {k: v[1] for k, v in payloads.items()}, cfg)
+    items = [(i, spec.source(None), spec.source(payloads), _texts(payloads), cfg)
              for i, (spec, payloads, cfg) in enumerate(todo)]
     results = _run_parallel(items)
     for i, (spec, payloads, cfg) in enumerate(todo):
